@@ -183,6 +183,28 @@ theorem xstep_safe {P : Nat → Nat → Bytes → Prop} (s : XDisk) (x : XOp) (h
         simp only [Disk.step, hr, hw, if_true] at hr'
         cases hr'
       · exact hb
+  | rdbCommitFail chunk ren rmOk =>
+    simp only [xstep]
+    cases hr : s.d.rdb with
+    | none =>
+      exact xbase_safe s (.rdbAppend chunk) htmp hok (fun r c _ hr' => by rw [hr] at hr'; cases hr')
+    | some r =>
+      simp only []
+      split
+      · rename_i hc
+        simp only [Bool.and_eq_true, decide_eq_true_eq] at hc
+        refine StepSafe.mk' rfl ?_ ?_
+        · exact Pos.ofAll (fun o ho fs' => by
+            rcases commitFail_okOps_mem r chunk ren rmOk o ho with rfl | rfl
+            · rfl
+            · trivial)
+        · intro r' hr'
+          simp only [Disk.step, hr, hc.1, if_true] at hr'
+          cases hr'
+      · rename_i hc
+        refine xbase_safe s (.rdbAppend chunk) htmp hok (fun r' c e' hr' hw hlen => ?_)
+        rw [hr] at hr'; cases hr'; cases e'
+        exact absurd (by simp [hw, hlen]) hc
   | gcRmFail stuck all =>
     simp only [xstep]
     have hrm : ∀ o ∈ okOps ((gcOpsZ s.d s.zombies).map (fun o => (⟨o, !gcStuck stuck all o⟩ : Att))),
